@@ -161,6 +161,39 @@ theorem writeBytes_size (s : Writer) (bs : Bytes) (h : WriterInv s) (s' : Writer
   · simp only [writeBytes, hg, if_false] at e
     rw [if_neg hg, writeLoop_no_grow bs _ (by omega) s' e]
 
+/-- the exact size after `writeByte`: grown by defaultSize iff `w >= len(buf)`, else unchanged; `w` advances by 1 -/
+theorem writeByte_size (s : Writer) (b : UInt8) (h : WriterInv s) (s' : Writer) (e : writeByte s b = .ok s') :
+    s'.buf.size = (if s.w ≥ s.buf.size then s.buf.size + defaultSize else s.buf.size) ∧ s'.w = s.w + 1 := by
+  obtain ⟨s1, e1, w1, hs⟩ := writeByte_ok s b h
+  rw [e1] at e; cases e
+  refine ⟨?_, by simpa using w1.w⟩
+  unfold WriterInv at h
+  have hD := defaultSize_pos
+  by_cases hg : s.w ≥ s.buf.size
+  · rw [if_pos hg]
+    -- the array was full: the store needs the grown array
+    have := w1.inv; unfold WriterInv at this
+    have := w1.w; simp only [List.length_singleton] at this
+    rcases hs with hs | ⟨_, hs⟩
+    · omega
+    · exact hs
+  · rw [if_neg hg]
+    rcases hs with hs | ⟨hw, _⟩
+    · exact hs
+    · omega
+
+/-- the free space after `writeBytes`: a growing call leaves exactly the free space it found -/
+theorem writeBytes_free (s : Writer) (bs : Bytes) (h : WriterInv s) (s' : Writer) (e : writeBytes s bs = .ok s') :
+    s'.buf.size - s'.w = if s.w + bs.length ≥ s.buf.size then s.buf.size - s.w else s.buf.size - s.w - bs.length := by
+  have hsz := writeBytes_size s bs h s' e
+  obtain ⟨s1, e1, w1⟩ := writeBytes_ok s bs h
+  rw [e1] at e; cases e
+  have := w1.w
+  unfold WriterInv at h
+  split at hsz <;> rename_i hg
+  · rw [if_pos hg]; omega
+  · rw [if_neg hg]; omega
+
 /-! ### the `type byte, text, CRLF` shape -/
 
 theorem writeLine_ok (s : Writer) (t : UInt8) (body : Bytes) (h : WriterInv s) :
